@@ -167,7 +167,7 @@ def scan_tables(F, rep, rule="C07.2"):
     body = cands[0]
     adt = "msp::Scanner"
     configs = [(4, 4, 2), (5, 4, 2), (6, 4, 2), (5, 3, 3), (6, 3, 3), (4, 3, 1), (5, 3, 1), (5, 2, 2)] if rep.tier != "thorough" else \
-        [(4, 4, 2), (5, 4, 2), (6, 4, 2), (7, 4, 2), (8, 4, 2), (5, 3, 3), (6, 3, 3), (4, 3, 1), (6, 3, 1), (7, 5, 2), (8, 5, 3)]
+        [(4, 4, 2), (5, 4, 2), (6, 4, 2), (7, 4, 2), (5, 3, 3), (6, 3, 3), (7, 3, 3), (4, 3, 1), (5, 3, 1), (6, 3, 1), (5, 2, 2), (6, 2, 2), (7, 5, 2)]
     problems = []
     inc = []
     rows = 0
